@@ -55,6 +55,8 @@ Explain ==
     [] a = "wit" -> /\ W.phase = "up" /\ ~run.busy     \* Witness of an older time is a no-op
                     /\ Conform(IF Line.act.v > W.clk THEN WitW(W, Line.act.v) ELSE W, run)
     [] a = "adv" -> W.phase = "up" /\ ~run.busy /\ Conform(AdvW(W, Line.act.d), run)
+    \* events pushed after a leave are dropped, by the main loop or by the shutdown drain loop
+    [] a = "burst" -> W.phase = "up" /\ ~run.busy /\ W.S.mem.lv /\ Conform(W, run)
     [] OTHER -> FALSE
 
 TraceInit ==
